@@ -85,7 +85,10 @@ let site_of (c : string) : string =
   | "cfile" :: _ -> "scenario-file-request-list"
   | "sfile" :: _ -> "scenario-file-ReadAmmoConfig"
   | "tfunc" :: _ -> "templater-function-arguments"
-  | "vsrc" :: _ -> "variable-source-csv-Init"
+  | "vsrc" :: _ :: _ :: k :: _ -> "variable-source-" ^ k ^ "-Init"
+  | "sdesc" :: _ -> "scenario-ReadAmmoConfig"
+  | "ctag" :: typ :: _ -> "config-value-ResolveCustomTags-" ^ typ
+  | ["indext"; _; _; len; _] -> if len = "0" then "extractFromSlice-empty-list" else "extractFromSlice"
   | "jbad" :: pre :: _ -> if pre = "1" then "provider-json-preload" else "provider-json-fullscan"
   | "nosrc" :: fmt :: pre :: ps :: _ -> "provider-" ^ fmt ^ (if pre = "1" then "-preload" else "-fullscan") ^ (if ps = "0" then "" else "-passes")
   | ("ammo" | "pfx" | "trunc" | "badhdr") :: fmt :: file :: _ ->
@@ -108,6 +111,53 @@ let site_of (c : string) : string =
 let sfmt_of (ext : string) : sfmt =
   match String.lowercase_ascii ext with
   | "hcl" -> FHcl | "yaml" -> FYaml | "yml" -> FYml | _ -> FOther
+
+(* scenario template function texts (templater.ParseFunc + ExecTemplateFunc): what the call yields *)
+type tclass = TNofunc | TErr | TPanic | TInt of ZT.t * ZT.t | TLen of ZT.t
+let tfunc_class (text : string) : tclass =
+  let (name, args) =
+    (match String.index_opt text '(' with
+     | None -> (text, [])
+     | Some i ->
+         let rest = String.sub text (i + 1) (String.length text - i - 1) in
+         let rest = if String.length rest > 0 && rest.[String.length rest - 1] = ')' then String.sub rest 0 (String.length rest - 1) else rest in
+         if rest = "" then (String.sub text 0 i, [])
+         else (String.sub text 0 i, List.map go_trim (String.split_on_char ',' rest))) in
+  let parse_int (a : string) : ZT.t option =
+    let ok = String.length a > 0 &&
+      (let b = if a.[0] = '-' || a.[0] = '+' then String.sub a 1 (String.length a - 1) else a in
+       String.length b > 0 && String.for_all (fun c -> c >= '0' && c <= '9') b) in
+    if not ok then None
+    else begin
+      let z = ZT.of_string (if a.[0] = '+' then String.sub a 1 (String.length a - 1) else a) in
+      if ZT.fits_int64 z then Some z else None
+    end in
+  match name with
+  | "randInt" ->
+      let range f t =
+        (match rand_int_range (z_of_zt f) (z_of_zt t) with
+         | VPanic -> TPanic | VErr -> TErr
+         | VOk (lo, w) -> TInt (zt_of_z lo, zt_of_z w)) in
+      (match List.map parse_int args with
+       | [] -> range ZT.zero ZT.zero
+       | [Some f] -> range f ZT.zero
+       | [Some f; Some t] -> range f t
+       | _ -> TErr)
+  | "randString" ->
+      (match args with
+       | [] | [_] | [_; _] ->
+           (match (match args with [] -> Some ZT.zero | a :: _ -> parse_int a) with
+            | None -> TErr
+            | Some n ->
+                let n = if ZT.sign n = 0 then ZT.one else n in
+                (match rand_string_alloc (z_of_zt n) with
+                 | VOk m -> TLen (zt_of_z m) | VErr -> TErr | VPanic -> TPanic))
+       | _ -> TErr)
+  | "uuid" -> TLen (ZT.of_int 36)
+  | _ -> TNofunc
+
+let utf8_len (s : string) : int =
+  let n = ref 0 in String.iter (fun c -> if Char.code c land 0xC0 <> 0x80 then incr n) s; !n
 
 let rec predict_inner (c : string) (obs : string) : string * string * bool =
   let safe p = (p, verdict (not (bad_status (status_of obs))) (site_of c ^ " outcome " ^ status_of obs), true) in
@@ -202,6 +252,112 @@ let rec predict_inner (c : string) (obs : string) : string * string * bool =
                             String.concat ";" (List.map (fun (k, v) -> hex_of_bytes k ^ "=" ^ hex_of_bytes v)
                               (List.sort (fun (a, _) (b, _) -> cmp_bytes a b) row))) rows))
                  | _ -> "bad-oracle-answer"))) in
+      safe p
+  | "vsrc" :: ext :: _ :: "json" :: file :: [] ->
+      let p =
+        (match sfmt_of ext with
+         | FOther -> "newerr"
+         | _ ->
+           if file = "!" then "newerr" else
+           (match ask "jany" (bytes_of_hex file) with
+            | None -> "oracle-miss"
+            | Some a -> (match split_blank a with ["1"; j] -> "ok " ^ j | _ -> "newerr"))) in
+      safe p
+  | "vsrc" :: ext :: _ :: "vars" :: kvs ->
+      (* the `variables` source: every string value that names a template function is replaced by its result
+         at construction; an error of any function is the constructor's error *)
+      let kvs = List.map (fun kv -> match String.split_on_char '=' kv with
+        | [k; v] -> (k, string_of_hexs v) | _ -> failwith "bad key=value") kvs in
+      let kvs = List.sort (fun (a, _) (b, _) -> compare (string_of_hexs a) (string_of_hexs b)) kvs in
+      let classes = List.map (fun (k, v) -> (k, v, tfunc_class v)) kvs in
+      let obs_kv = (match split_blank obs with
+        | ["ok"; l] when l <> "-" -> List.filter_map (fun kv -> match String.split_on_char '=' kv with
+            | [k; v] -> Some (k, string_of_hexs v) | _ -> None) (String.split_on_char ';' l)
+        | _ -> []) in
+      let p =
+        (match sfmt_of ext with
+         | FOther -> "newerr"
+         | _ ->
+           if List.exists (fun (_, _, c) -> c = TPanic) classes then "panic"
+           else if List.exists (fun (_, _, c) -> c = TErr) classes then "newerr"
+           else if classes = [] then "ok -"
+           else "ok " ^ String.concat ";" (List.map (fun (k, v, c) ->
+             let o = List.assoc_opt k obs_kv in
+             let hexs (x : string) = if x = "" then "-" else String.concat "" (List.map (fun ch -> Printf.sprintf "%02x" (Char.code ch)) (List.init (String.length x) (String.get x))) in
+             k ^ "=" ^
+             (match c with
+              | TNofunc -> hexs v
+              | TInt (lo, w) ->
+                  (match o with
+                   | Some ov when (try let r = ZT.sub (ZT.of_string ov) lo in ZT.sign r >= 0 && ZT.lt r w with _ -> false) -> hexs ov
+                   | _ -> Printf.sprintf "int-in[%s,+%s)" (ZT.to_string lo) (ZT.to_string w))
+              | TLen n ->
+                  (match o with
+                   | Some ov when ZT.equal (ZT.of_int (utf8_len ov)) n -> hexs ov
+                   | _ -> "len-" ^ ZT.to_string n)
+              | _ -> "?")) classes)) in
+      safe p
+  | "ctag" :: typ :: parts ->
+      (* a configuration value with placeholders through config.Decode (VariableInjectHook -> ResolveCustomTags).
+         Specification: a placeholder of a registered kind that cannot be resolved (property without #key, unknown
+         key, missing file, unset environment variable) is an error; a negative number for an unsigned field is an
+         error.  Prediction of the value only for string fields (the casts are strconv's). *)
+      let hexs (x : string) = if x = "" then "-" else String.concat "" (List.map (fun ch -> Printf.sprintf "%02x" (Char.code ch)) (List.init (String.length x) (String.get x))) in
+      let env = [("C13_S", "v13"); ("C13_N", "42"); ("C13_T", "true"); ("C13_NEG", "-1"); ("C13_BIG", "300"); ("C13_F", "1.5"); ("C13_E", ""); ("C13_HUGE", "18446744073709551615")] in
+      let plines = List.map (fun l -> bytes_of_hex (hexs l)) ["k1=v1"; "n=42"; "b=true"; "neg=-1"; "big=300"; "f=1.5"; "empty="] in
+      let str_of_bytes (b : n list) = String.concat "" (List.map (fun x -> String.make 1 (Char.chr (int_of_byte x))) b) in
+      (* per part: (is_token, literal text it stands for when not resolved, resolution) *)
+      let part (p : string) : bool * string * string option =
+        let arg = String.sub p 1 (String.length p - 1) in
+        (match p.[0] with
+         | 'L' -> (false, string_of_hexs arg, Some (string_of_hexs arg))
+         | 'P' ->
+             let exists = arg.[0] = 'f' in
+             let suffix = string_of_hexs (String.sub arg 1 (String.length arg - 1)) in
+             let var = go_trim ("P" ^ suffix) in
+             let fl (name : n list) = if hex_of_bytes name = "50" && exists then Some plines else None in
+             (true, "", (match property_resolve fl (bytes_of_hex (hexs var)) with VOk v -> Some (str_of_bytes v) | _ -> None))
+         | 'E' | 'B' -> (true, "", List.assoc_opt arg env)
+         | 'U' -> (true, "${" ^ string_of_hexs arg ^ ":x}", Some ("${" ^ string_of_hexs arg ^ ":x}"))
+         | _ -> failwith "bad part") in
+      let ps = List.map part (List.filter (fun x -> x <> "") parts) in
+      let clean = List.for_all (fun (tok, lit, _) -> tok || not (String.exists (fun ch -> ch = '$' || ch = '{' || ch = '}') lit)) ps in
+      let st = status_of_first obs in
+      if not clean then safe obs
+      else begin
+        let unres = List.exists (fun (_, _, r) -> r = None) ps in
+        let text = String.concat "" (List.map (fun (_, _, r) -> match r with Some v -> v | None -> "") ps) in
+        let ntok = List.length (List.filter (fun (t, _, _) -> t) ps) in
+        let single = ntok = 1 && List.for_all (fun (t, lit, _) -> t || go_trim lit = "") ps in
+        let value = String.concat "" (List.filter_map (fun (t, _, r) -> if t then r else None) ps) in
+        let neg_unsigned = (typ = "u8" || typ = "u64") && single && not unres &&
+          String.length value > 1 && value.[0] = '-' && String.for_all (fun ch -> ch >= '0' && ch <= '9') (String.sub value 1 (String.length value - 1))
+          && List.for_all (fun (t, lit, _) -> t || lit = "") ps in
+        let p = if unres then "err" else if typ = "str" then "ok " ^ hexs text else if neg_unsigned then "err" else obs in
+        let v =
+          if bad_status (status_of obs) then "BAD:" ^ site_of c ^ " outcome " ^ status_of obs
+          else if unres && st <> "err" then "BAD:" ^ site_of c ^ " unresolved-placeholder-not-rejected outcome " ^ st
+          else if neg_unsigned && st <> "err" then "BAD:" ^ site_of c ^ " negative-value-for-unsigned-field-not-rejected outcome " ^ st
+          else "ok" in
+        (p, v, true)
+      end
+  | ["sdesc"; _; mode] ->
+      (* a description file that is not named, does not exist or has no content: specification = an error,
+         of the constructor or (a directory reads as an empty file in the in-memory file system) of Run *)
+      let st = status_of obs in
+      ((if mode = "dir" then "noammo" else "newerr"), (if bad_status st then "BAD:" ^ site_of c ^ " outcome " ^ st
+                  else if st <> "newerr" && st <> "noammo" then "BAD:" ^ site_of c ^ " unreadable-description-not-rejected outcome " ^ st else "ok"), true)
+  | ["indext"; typ; idx; len; pre] ->
+      let idxb = bytes_of_hex idx in
+      let p =
+        (match typ with
+         | "nilmap" -> "ok nil"
+         | "scalar" | "uints" -> "err"
+         | _ ->
+           (match extract_index idxb (z_of_string len) (z_of_string pre) (z_of_int 0) with
+            | VOk i -> if hex_of_bytes idxb = "72616e64" then "ok inrange" else "ok " ^ string_of_z i
+            | VErr -> "err"
+            | VPanic -> "panic")) in
       safe p
   | ["jbad"; pre; ps; lim; file] ->
       (* http/json provider as a whole; the specification: a file with an entity that is not an entry
